@@ -7,7 +7,7 @@ import time
 import z3
 
 from .. import driver, extract, field, game
-from ..symrt import SYM_MATH, Ctx, EngineError, SymNum, active, call, cur, explore, term
+from ..symrt import SYM_MATH, Ctx, EngineError, SymNum, active, call, cur, explore, per_path, term
 from ..specs import predict as PS
 
 
@@ -112,7 +112,8 @@ class PredictWorld:
     def run(self, op, **kw):
         """single-path execution (predict_win / predict_draw)"""
         with active(self.ctx):
-            out = call(getattr(self.m, op), self.teams(**kw))
+            ts = per_path(self.teams(**kw))
+            out = self.ctx.merged(lambda i: call(getattr(self.m, op), ts(i)))
         return out
 
     def spec(self, which, beta=None):
@@ -126,8 +127,9 @@ class PredictWorld:
         world's instance has already predicted: (outcome, its beta)"""
         with active(self.ctx):
             m2, p2 = game.mk_model(self.ctx, self.S, tag="n")
-            call(getattr(self.m, op), self.teams(**kw))
-            out = call(getattr(m2, op), self.teams(**kw))
+            t1, t2 = per_path(self.teams(**kw)), per_path(self.teams(**kw))
+            self.ctx.merged(lambda i: call(getattr(self.m, op), t1(i)))
+            out = self.ctx.merged(lambda i: call(getattr(m2, op), t2(i)))
         return out, p2["beta"]
 
     def prover(self, timeout_ms=10000, extra_hyps=()):
